@@ -378,31 +378,33 @@ Definition pyro_parse_duration (s0 : bytes) : pres Z :=
 (* ------------------------------------------------------------------------------------------------ *)
 (* duration: time.ParseDuration of Go 1.23 (uint64) *)
 
-Fixpoint std_leading_int (s : bytes) (x : Z) : option (Z * bytes) :=
+(* The functions are parametrised by the admitted magnitude B; the standard library is the instance B = 1<<63
+   (std_parse_duration below).  The instance B = 1<<63 - 1 is used only to say "the admission of 1<<63 plays no role". *)
+Fixpoint std_leading_int_b (B : Z) (s : bytes) (x : Z) : option (Z * bytes) :=
   match s with
   | [] => Some (x, [])
   | c :: s' =>
       if is_digit c then
-        if two63 / 10 <? x then None
+        if B / 10 <? x then None
         else let x' := wrapu64 (x * 10 + Z.of_N c - 48) in
-             if two63 <? x' then None else std_leading_int s' x'
+             if B <? x' then None else std_leading_int_b B s' x'
       else Some (x, s)
   end.
 
-Fixpoint std_leading_fraction (s : bytes) (x : Z) (scale : fl) (overflow : bool) : Z * fl * bytes :=
+Fixpoint std_leading_fraction_b (B : Z) (s : bytes) (x : Z) (scale : fl) (overflow : bool) : Z * fl * bytes :=
   match s with
   | [] => (x, scale, [])
   | c :: s' =>
       if is_digit c then
-        if overflow then std_leading_fraction s' x scale true
-        else if max_int64 / 10 <? x then std_leading_fraction s' x scale true
+        if overflow then std_leading_fraction_b B s' x scale true
+        else if max_int64 / 10 <? x then std_leading_fraction_b B s' x scale true
         else let y := wrapu64 (x * 10 + Z.of_N c - 48) in
-             if two63 <? y then std_leading_fraction s' x scale true
-             else std_leading_fraction s' y (f_mul scale (f_of_Z 10)) false
+             if B <? y then std_leading_fraction_b B s' x scale true
+             else std_leading_fraction_b B s' y (f_mul scale (f_of_Z 10)) false
       else (x, scale, s)
   end.
 
-Fixpoint std_loop (fuel : nat) (s : bytes) (d : Z) : pres Z :=
+Fixpoint std_loop_b (B : Z) (fuel : nat) (s : bytes) (d : Z) : pres Z :=
   match s with
   | [] => POk d
   | c0 :: _ =>
@@ -410,7 +412,7 @@ Fixpoint std_loop (fuel : nat) (s : bytes) (d : Z) : pres Z :=
     | O => PErr
     | S fu =>
       if negb (is_dot_or_digit c0) then PErr else
-      match std_leading_int s 0 with
+      match std_leading_int_b B s 0 with
       | None => PErr
       | Some (v, s1) =>
         let pre := negb (length s =? length s1)%nat in
@@ -418,7 +420,7 @@ Fixpoint std_loop (fuel : nat) (s : bytes) (d : Z) : pres Z :=
           match s1 with
           | c1 :: s1' =>
               if N.eqb c1 46 then
-                let '(f, scale, s2) := std_leading_fraction s1' 0 f_one false in
+                let '(f, scale, s2) := std_leading_fraction_b B s1' 0 f_one false in
                 (f, scale, s2, negb (length s1' =? length s2)%nat)
               else (0, f_one, s1, false)
           | [] => (0, f_one, s1, false)
@@ -431,37 +433,39 @@ Fixpoint std_loop (fuel : nat) (s : bytes) (d : Z) : pres Z :=
           match std_unit u with
           | None => PErr
           | Some unit =>
-            if two63 / unit <? v then PErr else
+            if B / unit <? v then PErr else
             let v1 := wrapu64 (v * unit) in
             if 0 <? f then
               let t := frac_part f unit scale in
               if two64 <=? t then PImplDefined else
               let v2 := wrapu64 (v1 + t) in
-              if two63 <? v2 then PErr else
+              if B <? v2 then PErr else
               let d' := wrapu64 (d + v2) in
-              if two63 <? d' then PErr else std_loop fu s3 d'
+              if B <? d' then PErr else std_loop_b B fu s3 d'
             else
               let d' := wrapu64 (d + v1) in
-              if two63 <? d' then PErr else std_loop fu s3 d'
+              if B <? d' then PErr else std_loop_b B fu s3 d'
           end
         end
       end
     end
   end.
 
-Definition std_parse_duration (s0 : bytes) : pres Z :=
+Definition std_parse_duration_b (B : Z) (s0 : bytes) : pres Z :=
   let (neg, s) := strip_sign s0 in
   if beqb s [48]%N then POk 0
   else match s with
        | [] => PErr
        | _ :: _ =>
-           match std_loop (length s) s 0 with
+           match std_loop_b B (length s) s 0 with
            | POk d => if neg then POk (wrap64 (- d))               (* -Duration(d); Duration(1<<63) is MinInt64 *)
                       else if max_int64 <? d then PErr else POk d
            | PErr => PErr
            | PImplDefined => PImplDefined
            end
        end.
+
+Definition std_parse_duration : bytes -> pres Z := std_parse_duration_b two63.
 
 (* ------------------------------------------------------------------------------------------------ *)
 (* bytesize *)
